@@ -515,8 +515,14 @@ class C13(Prop):
         dtype = self.gen_dtype(rng)
         n = int(np.prod(shape))
         idx = np.indices(shape)
-        style = rng.choice(["gauss", "gauss", "uniform", "lognormal", "plateau", "two", "ramp", "thirds"])
-        if style == "gauss":
+        style = rng.choice(["gauss", "gauss", "uniform", "lognormal", "plateau", "two", "ramp", "thirds", "fine"])
+        if dtype in INT_DTYPES and style == "fine":
+            style = "gauss"
+        if style == "fine":  # structure a few hundred units in the last place above a large common level: far above the
+            # rounding bound, far below any fixed relative tolerance
+            c0, q = rng.choice([1.0, 1 / 3, 1e5 / 7, 1e-9 * math.pi]), 2.0 ** (-45 if dtype == "float64" else -17)
+            a = np.array([c0 * (1 + rng.randint(-100, 100) * q) for _ in range(n)])
+        elif style == "gauss":
             mu, sg = rng.choice([0.0, 1.0, 1e3, -5.0]), rng.choice([1.0, 1e-3, 0.1, 7.0])
             a = np.array([rng.gauss(mu, sg) for _ in range(n)])
         elif style == "uniform":
@@ -537,6 +543,8 @@ class C13(Prop):
         a = np.array(a, dtype=np.float64).reshape(shape)
         feats = ["fdata:" + style]
         sd = float(np.std(a)) or 1.0
+        if style == "fine" and dtype == "float32":
+            sd = float(np.std(a.astype(np.float32).astype(np.float64))) or 1.0
         if rng.random() < 0.7:
             for _ in range(rng.randint(1, 4)):
                 q = tuple(rng.randrange(s) for s in shape)
@@ -560,6 +568,8 @@ class C13(Prop):
             a = a * rng.choice([1.0, 1.0, 1e-3, 1e3])
         else:
             a = a * rng.choice([1.0, 1.0, 1.0, 1e-3, 1e6, 1e-120, 1e120])
+        if style == "fine":  # keep the levels apart: spikes of a few hundred units too
+            pass
         if dtype == "float32":
             thr = rng.choice(self.F32_THR)
         else:
